@@ -43,6 +43,8 @@ fixed('F9', ['C12', 'C10'], 'A9', 'adsg_core.optimization.assign_enc.patterns.pa
       "EncoderSelector crashed ('All design variables must have at least 2 options') for a setting with exactly one connection matrix", 'witness/w08', 'without any choice')
 fixed('F10', ['C12'], 'A20', 'adsg_core.optimization.assign_enc.selector:EncoderSelector._get_best_assignment_manager._create_managers: dist_corr_values',
       "ValueError 'assignment destination is read-only' under pandas copy-on-write as soon as two candidates tie (the 4 baseline-failing tests)", 'baseline', 'copy the distance-correlation')
+fixed('F16', ['C20'], 'A10d', 'adsg_core.graph.sup.dsg:SupSelChoiceOptionMapping.resolve:A10d:self._mapping:node.str_context',
+      "resolve() raised AttributeError ('NoneType' has no attribute 'str_context') for every source architecture in which a conditionally active, mapped source choice is active - the mandatory None entry of the mapping was dereferenced", 'witness/w16', 'skips the None (inactive) entry')
 known('F7', ['C07', 'C03'], 'A6', 'adsg_core.optimization.assign_enc.encoding:EagerEncoder.get_matrix:A6:raw-vector-returned:return (list(vector) + extra_vector, matrix[i_mat, :, :])',
       'on a direct hit the eager encoder returns the input vector instead of the stored -1-marked one, so conditionally inactive variables are reported active (30 vectors in witness/w07)',
       'witness/w07', 'returning the stored vector changes what is_valid_vector(get_matrix(x)[0]) answers and breaks 6 existing tests; not a small repair')
